@@ -562,6 +562,9 @@ pub fn run(r: &Run) {
     // by the same fold, so that glue that leaves stale VRPs in the table is visible here too
     r.assume("rtr-fed-vrps: shared with C13 (cache scripts through RpkiClient::serve_inner); validation results follow from the VRP set, which is what is compared");
     r.prop("rtr-fed-vrps", r.tier.pick(6_000, 120_000), crate::props::c13::arb_case, crate::props::c13::check);
+    // "the validation state used by policy": an export policy conditioned on the state, evaluated by a live session
+    r.assume(crate::props::rpkiexp::RULE);
+    r.prop("export-rpki", r.tier.pick(30_000, 600_000), || crate::props::rpkiexp::arb_case(r.tier.pick(20, 36)), crate::props::rpkiexp::check);
     // bounded-exhaustive windows: on a byte boundary, across one, deep in the address
     let windows: Vec<(bool, u8, u8, bool)> = if q {
         vec![(false, 0, 5, false), (false, 6, 5, false), (false, 21, 5, false), (true, 61, 4, false), (true, 123, 5, false), (false, 14, 2, true), (false, 0, 2, true), (true, 63, 2, true)]
@@ -585,6 +588,9 @@ pub fn run(r: &Run) {
 pub fn replay(sub: &str, case: &Value) -> Result<CheckResult, String> {
     if sub == "rtr-fed-vrps" {
         return Ok(crate::props::c13::check(&decode_case(case)?));
+    }
+    if sub == "export-rpki" {
+        return crate::props::rpkiexp::replay(case);
     }
     let c: Case = decode_case(case)?;
     Ok(check(&c))
